@@ -126,3 +126,38 @@ Section Batch.
       end
     end.
 End Batch.
+
+(** * A transformation with hidden state
+
+    The real pipeline keeps state outside the file system (thread-local caches such as the
+    resolved [.luaurc] files).  [sxform] threads such a state [st] from item to item and from
+    run to run; [run_batch_st] is [run_batch] over it.  The theorems of C11 are about the pure
+    [xform]: they apply to the code exactly when the state does not influence the result
+    ([stateless] in [Proof/BatchFacts.v]) - the result of a file is a function of the file and
+    the file system only, independent of the processing order and of earlier runs. *)
+Section Stateful.
+  Variable cfg : Type.
+  Variable st : Type.
+  Variable sxform : st -> cfg -> path -> content -> fs -> (option content * list path) * st.
+
+  Definition process_item_st (c : cfg) (f : fs) (s : st) (it : bitem) : fs * bool * st :=
+    match fs_get f (fst it) with
+    | Some txt =>
+      let '(r, s') := sxform s c (fst it) txt f in
+      match fst r with
+      | Some o => (fs_write f (snd it) o, true, s')
+      | None => (f, false, s')
+      end
+    | None => (f, false, s)
+    end.
+
+  Fixpoint run_batch_st (fail_fast : bool) (c : cfg) (items : list bitem) (f : fs) (s : st)
+    : fs * list (path * bool) * st :=
+    match items with
+    | [] => (f, [], s)
+    | it :: rest =>
+      let '(f1, ok, s1) := process_item_st c f s it in
+      if fail_fast && negb ok then (f1, [(fst it, ok)], s1)
+      else let '(f2, sts, s2) := run_batch_st fail_fast c rest f1 s1 in (f2, (fst it, ok) :: sts, s2)
+    end.
+End Stateful.
